@@ -26,6 +26,7 @@ type CrashSpec struct {
 	Kept    []int // indices into pending list
 	TornAt  int   // index into pending list of the torn op, -1 if none
 	TornCut int
+	TornOld []byte // content of the torn range before the torn write (valid during visit only)
 	Family  string
 }
 
@@ -93,15 +94,19 @@ func Enumerate(log []Op, from int, o EnumOpts, rnd func() uint64, visit func(spe
 		seen[key] = struct{}{}
 
 		scratch = append(scratch[:0], base...)
+		var tornOld []byte
 		for _, i := range kept {
 			p := &pend[i]
 			if i == tornAt {
+				if end := int(p.Off) + len(p.Data); end <= len(scratch) {
+					tornOld = append([]byte(nil), scratch[p.Off:end]...)
+				}
 				scratch = applyPend(scratch, PendOp{Off: p.Off, Data: p.Data[:tornCut]})
 				continue
 			}
 			scratch = applyPend(scratch, *p)
 		}
-		visit(CrashSpec{K: k, Pending: len(pend), Kept: kept, TornAt: tornAt, TornCut: tornCut, Family: family}, pend, scratch)
+		visit(CrashSpec{K: k, Pending: len(pend), Kept: kept, TornAt: tornAt, TornCut: tornCut, TornOld: tornOld, Family: family}, pend, scratch)
 	}
 
 	isHeader := func(p *PendOp) bool {
